@@ -12,8 +12,19 @@ package av1
 //@   requires a != nil
 //@   ensures swOKi(sw)
 //@   ensures[C02] result == nil ==> adv(sw, int(a.Size()))
-//@   assigns sw.(*bits.FixedSliceWriter).off, sw.(*bits.FixedSliceWriter).accError, sw.(*bits.FixedSliceWriter).n, sw.(*bits.FixedSliceWriter).v, sw.(*bits.FixedSliceWriter).buf[:]
+//@   assigns sw.(*bits.FixedSliceWriter).off, sw.(*bits.FixedSliceWriter).accError, sw.(*bits.FixedSliceWriter).n, sw.(*bits.FixedSliceWriter).v, sw.(*bits.FixedSliceWriter).buf[:], ghost(sw).tr
 
 // Size() is loop-free: inlined wherever it is called (also inside mp4.(*Av1CBox).Size()).
 //@ func (*CodecConfRec).Size
 //@   inline
+
+// io.Writer side (called by mp4.(*Av1CBox).Encode): EncodeSW into a fresh writer of Size() bytes, then one Write.
+// ASSUMPTION (assumes): a record of 2^48 bytes or more cannot be allocated (same bound as the box wrappers in package mp4).
+//@ func (*CodecConfRec).EncodeSW
+//@   ensures result == nil ==> sw.(*bits.FixedSliceWriter).accError == nil
+//@   ensures sw.(*bits.FixedSliceWriter).accError == nil ==> old(sw.(*bits.FixedSliceWriter).accError) == nil
+//@ func (*CodecConfRec).Encode
+//@   requires w != nil && a != nil
+//@   assumes a.Size() <= 1<<48
+//@   ensures[C02] result == nil ==> ghost(w).wlen == old(ghost(w).wlen) + int(a.Size())
+//@   assigns ghost(w).wlen, ghost(w).wz, ghost(w).wlegal, ghost(w).wesc, ghost(w).wtight, ghost(w).pay, ghost(w).plen, ghost(w).wdata, ghost(w).tr
